@@ -193,10 +193,17 @@ class LfricInterp(Interp):
             if meth == "get_last_dof_annexed":
                 return self.fint(okey, "annexed")
             if meth == "get_last_dof_halo":
-                d = self.ev_scalar(args[0], frame, g) if args else z3.IntVal(1)
+                # no depth argument: the deepest halo of the mesh
+                d = self.ev_scalar(args[0], frame, g) if args else self.fint("mesh", "halo_depth")
                 h = z3.Function(f"halo_{okey}", z3.IntSort(), z3.IntSort())(d)
                 self.assumptions += [h >= self.fint(okey, "annexed"), h <= self.fint(okey, "undf")]
                 return h
+            if meth == "get_last_halo_cell" and args:
+                d = self.ev_scalar(args[0], frame, g)
+                k = (f"{okey}@{d}", "last_halo_cell")
+                if k not in self.field_ints:
+                    self.field_ints[k] = z3.Function(f"last_halo_cell_{okey}", z3.IntSort(), z3.IntSort())(d)
+                return self.field_ints[k]
             if meth == "get_halo_depth":
                 return self.fint("mesh", "halo_depth")
             if meth == "get_sum":
